@@ -350,9 +350,18 @@ func (c *Core) StepDown(httpCtx context.Context, req *logical.Request) (retErr e
 	// a token store after sealing.
 	revokeSpentToken := func() {
 		if te != nil && te.NumUses == tokenRevocationPending {
-			leaseID, err := c.expiration.CreateOrFetchRevocationLeaseByToken(c.activeContext.Load(), te)
+			// The token's lease lives in the token's namespace.
+			tokenNS, err := c.NamespaceByID(ctx, te.NamespaceID)
+			if err == nil && tokenNS == nil {
+				err = namespace.ErrNoNamespace
+			}
+			var leaseID string
 			if err == nil {
-				err = c.expiration.Revoke(c.activeContext.Load(), leaseID)
+				revokeCtx := namespace.ContextWithNamespace(c.activeContext.Load(), tokenNS)
+				leaseID, err = c.expiration.CreateOrFetchRevocationLeaseByToken(revokeCtx, te)
+				if err == nil {
+					err = c.expiration.Revoke(revokeCtx, leaseID)
+				}
 			}
 			if err != nil {
 				c.logger.Error("token needed revocation before step-down but failed to revoke", "error", err)
